@@ -1236,6 +1236,34 @@ func c01Opts(rng *rand.Rand, kind string) string {
 
 func (c01) Gen(rng *rand.Rand, tier string, emit func(string)) {
 	h := func(s string) string { return hx([]byte(s)) }
+	// glue pass (c01_glue.go): several input files through ReadSequencesBatchFromFiles / CLIReadBioSequences / the real
+	// binaries.  Own PRNG stream derived from -seed (the older cases keep their values); the subprocess cases run in the background while
+	// the in-process cases run one at a time, their lines are emitted last
+	{
+		glueSeed := int64(1)
+		for i, a := range os.Args {
+			if v := strings.TrimPrefix(strings.TrimPrefix(a, "-"), "-seed="); v != a && v != strings.TrimPrefix(a, "-") {
+				glueSeed, _ = strconv.ParseInt(v, 10, 64)
+			} else if (a == "-seed" || a == "--seed") && i+1 < len(os.Args) {
+				glueSeed, _ = strconv.ParseInt(os.Args[i+1], 10, 64)
+			}
+		}
+		glueIn, glueCmd := c01GlueGen(rand.New(rand.NewSource(glueSeed*7919+101)), tier)
+		go func() {
+			c01RepoCommand("obiconvert")
+			c01RepoCommand("obigrep")
+			c01CmdPrefetch(glueCmd)
+		}()
+		emit0 := emit
+		defer func() {
+			for _, l := range glueIn {
+				emit0(l)
+			}
+			for _, l := range glueCmd {
+				emit0(l)
+			}
+		}()
+	}
 	// corpus: hand-picked cases
 	gb2 := "LOCUS       AB1 8 bp    DNA\nDEFINITION  first.\nSOURCE      Homo sapiens\nFEATURES             Location/Qualifiers\n     source          1..8\n                     /db_xref=\"taxon:9606\"\nORIGIN\n        1 acgtacgt\n//\n" +
 		"LOCUS       CD2 4 bp    DNA\nDEFINITION  second.\nFEATURES             Location/Qualifiers\n     source          1..4\nORIGIN\n        1 ttga\n//\n"
@@ -2190,6 +2218,14 @@ func (c01) Exec(c string) (string, []Fail) {
 			fail("reverse."+d, "mates differ from the records of the reverse file, in file order (%s)", d)
 		}
 		return "paired " + strconv.Itoa(len(gotF)), fails
+
+	case "mread":
+		return c01GlueMread(w, fail), fails
+	case "cli":
+		return c01GlueCli(w, fail), fails
+	case "cmd":
+		caseTrivial = true // oracle-only for the model: the number of records of the inputs
+		return c01GlueCmd(w)
 
 	case "kseq":
 		if len(w) != 3 || (w[1] != "fa" && w[1] != "fq") {
